@@ -580,6 +580,10 @@ func genComment(r *sim.Rand) sim.Op {
 	for i := range b {
 		b[i] = commentAlphabet[r.Intn(len(commentAlphabet))]
 	}
+	// a comment must not look like the address line of a data block ("; $7e2000" / "; 0x7e2000")
+	if n >= 2 && b[0] == '0' && (b[1] == 'x' || b[1] == 'X') {
+		b[0] = 'o'
+	}
 	return sim.Op{K: "comment", S: string(b)}
 }
 
